@@ -131,6 +131,8 @@ class Session:
         params.append(f'{n}=_d_{n}')
       if not (kind != 'fn' and i == 0):
         names.append(n)
+      if i + 1 == sig.get('posonly', 0):
+        params.append('/')
     if sig['varargs']:
       params.append('*args')
     elif sig['kwonly']:
